@@ -6,7 +6,7 @@
 set -u
 D="$(readlink -f "$1")"; DEST="$2"
 WT=$(mktemp -d /tmp/ssecheck-confirm-XXXXXX)
-git -C /repo worktree add -q --detach "$WT/repo" HEAD || exit 2
+git -C /repo worktree add -q --detach "$WT/repo" "${MUT_BASE:-HEAD}" || exit 2
 trap 'git -C /repo worktree remove --force "$WT/repo" 2>/dev/null; rm -rf "$WT"' EXIT
 export GOFLAGS=-mod=mod GOPROXY=off GOSUMDB=off GOTOOLCHAIN=local; unset GOWORK
 cd "$WT/repo"
@@ -14,7 +14,7 @@ pkgdir=$(dirname "$DEST"); demo_run=$(grep -oE 'func (Test[A-Za-z0-9_]+)' "$D/de
 cp "$D/demo_test.go" "$DEST"
 clean_demo=fail; go test -count=1 -run "^($demo_run)\$" "./$pkgdir" >/tmp/confirm_clean.log 2>&1 && clean_demo=pass
 rm -f "$DEST"
-git apply "$D/patch.diff" || { echo '{"applies":false}'; exit 3; }
+git apply "$D/patch.diff" 2>/dev/null || git apply -3 "$D/patch.diff" 2>/dev/null || { echo '{"applies":false}'; exit 3; }
 build=fail; go build ./... >/dev/null 2>&1 && build=ok
 suite=fail
 for i in 1 2 3; do go test -count=1 ./... >/tmp/confirm_suite.log 2>&1 && { suite=pass; break; }; done
